@@ -113,3 +113,15 @@ def dist_cov(R, meta, il):
         cls = "ok" if (f.get("ret") != "NULL" and not out.startswith("2a")) else f.get("errno", "?")
         k = "%s:%s" % (m[0], cls); d[k] = d.get(k, 0) + 1
         t = "tag:" + m[1]; d[t] = d.get(t, 0) + 1
+
+
+def limit_sweep(R, quick):
+    """results at the limit of the output field: the three methods whose salt length is bounded only by CRYPT_OUTPUT_SIZE, every salt length that
+    puts the result within a few characters of 384, in every spelling of the salt's end (seeded/C06b, C04e)"""
+    ops, meta = [], []
+    for m, head, alpha in (("sunmd5", b"$md5$", S.A64), ("sunmd5", b"$md5,rounds=7$", S.A64), ("sha1crypt", b"$sha1$3$", S.A64), ("scrypt", b"$7$66..../....", S.A64)):
+        for sl in (range(330, 372) if not quick else list(range(340, 364))):
+            salt = S.rs(R.rng, alpha, sl)
+            for end in (b"", b"$", b"$$", b"$$x", b"$" + S.rs(R.rng, S.A64, 22)):
+                ops.append(crypt_op(R.rng.choice(["rn", "r"]), 0, b"pw", head + salt + end)); meta.append((m, "limit:" + ("bare" if not end else "dollar" * end.count(b"$")), 2, len(head) + sl + len(end)))
+    return ops, meta
